@@ -51,6 +51,11 @@ type Spec struct {
 	// Info > 0: an interim response with that 1xx status (and a Link header)
 	// is sent first, the way 103 Early Hints are.
 	Info int `json:"info,omitempty"`
+	// Accel: on the first pass (request path is not Accel) the handler answers
+	// like a backend that hands the request over to an internal location:
+	// X-Accel-Redirect: Accel, Content-Length: 0, status 200, no body. The rest
+	// of the spec is what it does when it is reached again for that location.
+	Accel string `json:"accel,omitempty"`
 }
 
 // plainReader hides every method of the wrapped reader but Read.
@@ -171,6 +176,12 @@ func (h handler) ServeHTTP(w http.ResponseWriter, r *http.Request) (int, error) 
 				break
 			}
 		}
+	}
+	if s.Accel != "" && r.URL.Path != s.Accel {
+		w.Header().Set("X-Accel-Redirect", s.Accel)
+		w.Header().Set("Content-Length", "0")
+		w.WriteHeader(http.StatusOK)
+		return 0, nil
 	}
 	if s.DelayMs > 0 {
 		time.Sleep(time.Duration(s.DelayMs) * time.Millisecond)
